@@ -196,6 +196,14 @@ def fam_failures(rec, rnd, thorough, n_types):
         types.append(g.d_arr("unbounded", el))
         types.append(g.d_arr("fixed", el, n=3))
         types.append(g.d_arr("derived", el, lt=g.d_int(1, 0)))
+    # unbounded arrays whose elements take no bytes: decoding must end (DataError), over empty and non-empty buffers
+    for el in (g.d_arr("fixed", g.d_int(2, 0), n=0), g.d_nbytes(0), g.d_struct([("z", g.d_arr("fixed", g.d_int(1, 0), n=0))]),
+               g.d_arr("fixed", g.d_struct([("a", g.d_int(4, 1))]), n=0)):
+        zt = g.d_arr("unbounded", el)
+        for buf in (b"", b"\x00", b"\x01\x02\x03", bytes(rnd.getrandbits(8) for _ in range(rnd.randint(1, 9)))):
+            rec.dec(zt, buf, "zero-size-elements")
+        zs = g.d_struct([("h", g.d_int(1, 0)), ("tail", zt)])
+        rec.dec(zs, b"\x07\x08\x09", "zero-size-elements")
     for t in types:
         for label, v in g.bad_values(t, rnd):
             rec.enc(t, v, "bad:" + label)
